@@ -25,9 +25,9 @@ import (
 // ReuseCase: one document planned once and executed several times with different variables,
 // worlds (resolver behaviours), roots and context markers.
 type ReuseCase struct {
-	Base   ExecCase `json:"base"`
+	Base   ExecCase   `json:"base"`
 	Runs   []ReuseRun `json:"runs"`
-	Mutate bool     `json:"mutate"`
+	Mutate bool       `json:"mutate"`
 }
 
 type ReuseRun struct {
